@@ -524,6 +524,17 @@ theorem methodConflictsStd_incomplete :
     witnessW3.methodConflictsStd = [] ∧ witnessW3.methodConflicts = [⟨.routeMethodConflict, 0, 9⟩] := by
   decide
 
+/-- two catch-all-method routes (`allow(any_method, non_standard_methods)`) on one path and no method-specific route
+    there: no guard names a method, the "named methods only" variant examines nothing and lets both through; the real
+    rule reports every well-known method. -/
+def witnessAnyAny : DB :=
+  { parent := [0], tys := [],
+    comps := [⟨.handler, 0, 0, .request, false, [], false, 0⟩, ⟨.handler, 0, 0, .request, false, [], false, 1⟩],
+    routes := [⟨0, [.lit 0], [], true⟩, ⟨1, [.lit 0], [], true⟩], pparams := [] }
+
+theorem methodConflictsNamed_incomplete :
+    witnessAnyAny.methodConflictsNamed = [] ∧ witnessAnyAny.methodConflicts.length = 9 := by
+  decide
 
 /-! ## Rule: a path-parameter struct field that is not in the route template -/
 
